@@ -29,10 +29,13 @@ package bytecode
 //@ trusted func PrintInstf
 //@   pure
 
+// inner_func(a): what GetInnerFunc finds behind the wrapper at a (definitional: names its result)
+//@ uninterp func inner_func(a uintptr) uintptr
 //@ trusted func GetInnerFunc
 //@   props C06
 //@   assigns nothing
 //@   ensures user_space_address: result0 < 0x7fffffff00000000
+//@   ensures names_it: result0 == inner_func(start)
 
 //@ trusted func GetTrampolinePtr
 //@   props C03
